@@ -3,6 +3,7 @@
 From Coq Require Import ZArith List Bool.
 From LV Require Import Route.Model Route.Proofs Route.LinkC09 Route.Search.
 From LV Require Import Route.Dijkstra Route.DijkstraProofs.
+From LV Require Import Route.Blinded Route.BlindedProofs.
 Import ListNotations.
 Local Open Scope Z_scope.
 
@@ -212,4 +213,147 @@ Proof.
     as (es & szs & Hu & _ & Hv).
   destruct (checker_sound _ _ _ _ _ _ _ _ Hv) as (os & Hres & Hok).
   exists es, szs, os. split; [apply Hu; apply le_n|]. split; assumption.
+Qed.
+
+(* ---------- additional edges: route hints and blinded payment paths ----------
+   (Route/Blinded.v)
+
+   All theorems above quantify over ANY graph [g : list edge].  The graph of a
+   findPath call with additional edges is [with_additional g self adds]: the
+   channel graph plus every hint that does not leave [self], with zero inbound
+   fee and the fixed hint capacity; for a payment to blinded paths [ps] the
+   hints are [blinded_additional nums ps] (BlindedPaymentPathSet.ToRouteHints
+   after NewBlindedPaymentPathSet): per path the edge introduction node ->
+   first blinded node with the AGGREGATED relay parameters
+   (min = htlc_minimum, max = htlc_maximum but has_max = FALSE as lnd leaves
+   it, fee base/rate, cltv delta), then all-zero edges up to the NUMS dummy
+   target [nums].  The instances below spell this out. *)
+
+(* findPath + newRoute on the graph with the blinded paths' edges: the chain
+   exists, is unique and the route built from it (dummy hop still on) satisfies
+   every clause of the property on THAT graph; in particular (next theorems)
+   the aggregated htlc_minimum, fee and CLTV delta are honoured. *)
+Theorem C19_blinded_findpath_route_ok :
+  forall (K : keyops), keyops_ok K ->
+  forall g nums ps en rs amt src last_size (minprob : kP K),
+    0 <= fee_limit rs -> 0 < amt ->
+  forall s,
+    greach K (blinded_graph g (self en) nums ps) en rs amt src (set_target nums ps)
+           last_size minprob s ->
+    s_done K s = true ->
+    exists es szs os,
+      unravel K (set_target nums ps) (length es) (s_dm K s) src = Some es /\
+      resolve (blinded_graph g (self en) nums ps) src (r_hops (new_route en src amt es)) = Some os /\
+      route_ok (blinded_graph g (self en) nums ps) en rs amt src (set_target nums ps)
+               (new_route en src amt es) szs os.
+Proof.
+  intros K KO g nums ps en rs amt src last_size minprob Hf Ha s Hr Hd.
+  exact (C19_findpath_route_ok K KO _ en rs amt src _ last_size minprob Hf Ha s Hr Hd).
+Qed.
+
+(* The clause "the amount forwarded lies within that channel's MIN htlc" holds
+   on the aggregated edge of every blinded path: whatever a checker-accepted
+   route sends over [agg_edge p b1] is at least the path's htlc_minimum. *)
+Theorem C19_blinded_min_enforced :
+  forall g en rs amt src dst r sizes,
+    route_valid g en rs amt src dst r sizes = true ->
+    exists es, resolve g src (r_hops r) = Some es /\
+      forall p b1 x, carried_on (r_amt r) es (r_hops r) (agg_edge p b1) x ->
+                     bp_min p <= x.
+Proof. exact blinded_min_enforced. Qed.
+
+(* The node in front of the aggregated edge (the introduction node) is left at
+   least the aggregated fee netted with the inbound fee of the channel the
+   payment arrives on (floored at zero — exactly what newRoute computes; NOTE:
+   with a negative inbound fee this is LESS than the aggregated fee, see
+   C19_blinded_aggregate_fee_refuted) and at least the aggregated CLTV delta. *)
+Theorem C19_blinded_intro_paid :
+  forall g en rs amt src dst r sizes,
+    route_valid g en rs amt src dst r sizes = true ->
+    exists es, resolve g src (r_hops r) = Some es /\
+      forall p b1 ein h a_in tl_in,
+        fwd_over (r_amt r) (r_tl r) es (r_hops r) ein (agg_edge p b1) h a_in tl_in ->
+        Z.max 0 (bp_base p + (h_amt h * bp_rate p) / fee_rate_parts +
+                 inbound_fee ein (h_amt h + (bp_base p + (h_amt h * bp_rate p) / fee_rate_parts)))
+          <= a_in - h_amt h /\
+        bp_delta p <= tl_in - h_tl h /\
+        bp_min p <= h_amt h.
+Proof. exact blinded_intro_paid. Qed.
+
+(* newRoute's removal of the NUMS dummy hop changes no other hop and neither
+   total: the dummy edge is all-zero and hints carry no inbound fee. *)
+Theorem C19_newroute_strip_dummy :
+  forall amt tl0 a b es,
+    es <> [] ->
+    e_ibase (last es dflt_edge) = 0 -> e_irate (last es dflt_edge) = 0 ->
+    new_route_aux amt tl0 (es ++ [zero_edge a b]) =
+    (fst3 (new_route_aux amt tl0 es) ++ [mkHop 0 b amt tl0],
+     snd3 (new_route_aux amt tl0 es), thd3 (new_route_aux amt tl0 es)).
+Proof. intros. apply new_route_aux_snoc_dummy; assumption. Qed.
+
+(* newRoute's back-fill loses nothing: when every hop from the introduction
+   node on shows the recipient's amount and expiry (zero-fee zero-delta edges
+   inside the blinded portion), writing those back recovers the hops. *)
+Theorem C19_unblind_backfill :
+  forall intro amt tl hs inb,
+    flat_from intro amt tl inb hs ->
+    unblind_hops intro amt tl inb (backfill intro inb hs) = hs.
+Proof. exact unblind_backfill. Qed.
+
+(* REFUTED: "the amount forwarded lies within that channel's MAX htlc" on the
+   aggregated edge.  has_max of [agg_edge] is false (as toRouteHints leaves
+   HasMaxHTLC), so the checker, like amtInRange, never looks at htlc_maximum.
+   Witness (replayed on the real code in every run, finding C19-F1): source 0
+   -101-> 1 = introduction node, one blinded hop 3, htlc_maximum 500000,
+   amount 500001. *)
+Definition w_e01 := mkEdge 101 0 1 false 0 5000000000 true 1000 100 40 0 0 10000000.
+Definition w_p := mkBPay 1 [3] 1000 100 80 0 500000.
+Definition w_en := mkEnv 0 800000 0 [].
+Definition w_rs := mkRestr 1099511627776 100000 [] None [] [].
+Definition w_path := [w_e01; agg_edge w_p 3; zero_edge 3 11].
+
+Theorem C19_blinded_max_refuted :
+  bpay_valid w_p = true /\
+  let G := blinded_graph [w_e01] 0 11 [w_p] in
+  (* the route with the dummy hop passes the checker on the search graph *)
+  route_valid G w_en w_rs 500001 0 11 (new_route w_en 0 500001 w_path) [110; 90; 90] = true /\
+  exists r os,
+    new_route_blinded 11 [w_p] w_en 0 500001 w_path = Some r /\
+    (* so does the route newRoute returns, with the amounts written back *)
+    route_valid G w_en w_rs 500001 0 3 (unblind 1 r) [110; 90] = true /\
+    resolve G 0 (r_hops (unblind 1 r)) = Some os /\
+    exists x, carried_on (r_amt r) os (r_hops (unblind 1 r)) (agg_edge w_p 3) x /\
+              bp_max w_p < x.
+Proof.
+  split; [reflexivity|]. cbv zeta. split; [vm_compute; reflexivity|].
+  eexists. eexists. split; [vm_compute; reflexivity|].
+  split; [vm_compute; reflexivity|]. split; [vm_compute; reflexivity|].
+  exists 500001. split; [|vm_compute; reflexivity].
+  apply co_next. apply co_here.
+Qed.
+
+(* REFUTED: "the blinded path is left its aggregated fee".  A negative
+   inbound fee of the introduction node on the channel the payment arrives on
+   is netted against the aggregated fee (node_fee = max 0 (out + in)), which
+   pays for ALL nodes of the blinded path.  Witness: 0 -101-> 1 -102-> 2 =
+   introduction node charging inbound base -1500 on 102; aggregated fee
+   1000 + 100 ppm; amount 400000: the path is left 0 instead of 1040. *)
+Definition w_e12 := mkEdge 102 1 2 false 0 5000000000 true 2000 500 30 (-1500) 0 10000000.
+Definition w_p2 := mkBPay 2 [3] 1000 100 80 1000 500000.
+Definition w_path2 := [w_e01; w_e12; agg_edge w_p2 3; zero_edge 3 11].
+
+Theorem C19_blinded_aggregate_fee_refuted :
+  let G := blinded_graph [w_e01; w_e12] 0 11 [w_p2] in
+  route_valid G w_en w_rs 400000 0 11 (new_route w_en 0 400000 w_path2) [50; 110; 90; 90] = true /\
+  exists r os ein h a_in tl_in,
+    new_route_blinded 11 [w_p2] w_en 0 400000 w_path2 = Some r /\
+    route_valid G w_en w_rs 400000 0 3 (unblind 2 r) [50; 110; 90] = true /\
+    resolve G 0 (r_hops (unblind 2 r)) = Some os /\
+    fwd_over (r_amt r) (r_tl r) os (r_hops (unblind 2 r)) ein (agg_edge w_p2 3) h a_in tl_in /\
+    a_in - h_amt h < bp_base w_p2 + (h_amt h * bp_rate w_p2) / fee_rate_parts.
+Proof.
+  cbv zeta. split; [vm_compute; reflexivity|].
+  do 6 eexists. split; [vm_compute; reflexivity|].
+  split; [vm_compute; reflexivity|]. split; [vm_compute; reflexivity|].
+  split; [apply fo_later; apply fo_here|]. vm_compute. reflexivity.
 Qed.
